@@ -26,8 +26,14 @@ func (e *EventLog) Add(format string, args ...any) {
 
 // Case logs a build: the case, whether it failed, and the bytes the sink got.
 // Error texts are not logged (they contain the per-process scratch path).
-func (e *EventLog) Case(c *Case, r *BuildResult) {
+func (e *EventLog) Case(c *Case, r *BuildResult, volatile bool) {
 	cj, _ := json.Marshal(c)
+	if volatile {
+		// signed through nfpm's key-file path: salted signatures make bytes,
+		// lengths and write sizes differ from build to build
+		e.Add("case %s parse_failed=%v failed=%v fired=%d (key-file signed: bytes not logged)", cj, r.ParseErr != nil, r.Err != nil, r.Fired)
+		return
+	}
 	sum := sha256.Sum256(r.Bytes)
 	e.Add("case %s parse_failed=%v failed=%v fired=%d trace=%v bytes=%d sha=%x", cj, r.ParseErr != nil, r.Err != nil, r.Fired, r.Trace, len(r.Bytes), sum[:8])
 }
